@@ -18,11 +18,12 @@ EXPLANATION = (
     "__init__/__post_init__. (R3) values obtained from to_schema()/the model cache are deep-copied before being "
     "written. (R4) the schema transformation methods have no effect on their receiver at all. (R5) no schema class "
     "aliases its state dict in __setstate__ (copy.copy must not share __dict__). (R6) hidden state outside the schema: "
-    "config_context, which polars validate enters on every call, restores the outer configuration in a finally. NOT decided: verdict "
+    "config_context, which polars validate enters on every call, restores the outer configuration in a finally. (R7) an instance attribute re-bound from a registry during validation (Check._check_fn) is re-bound only under a test of its current value, so a user function that shares its name with a built-in is never replaced. " 
+    "NOT decided: verdict "
     "stability on probe frames; mutations performed by user callbacks."
 )
 LEVEL_RULE = "one obligation per write site reaching a shared schema/check/dtype object from an observer entry"
-FLOORS = {"R1": 10, "R2": 4, "R3": 1, "R4": 10, "R5": 1, "R6": 1}
+FLOORS = {"R1": 10, "R2": 4, "R3": 1, "R4": 10, "R5": 1, "R6": 1, "R7": 1}
 
 OBSERVER_METHODS = ["__repr__", "__str__", "__eq__", "properties", "dtypes", "get_dtypes", "get_metadata", "strategy",
                     "example", "strategy_component", "to_yaml", "to_json", "to_script", "coerce_dtype", "validate",
@@ -202,12 +203,51 @@ def r5_setstate(ctx):
         ctx.ob("R5", "pandera/api", "no custom __setstate__ on schema classes", True, "default copy protocol")
 
 
+def r7_registry_rebinding_is_guarded_by_the_value(ctx):
+    """Re-binding an instance attribute from a registry while validating (`self._check_fn = <registry>[self.name]`, done so
+    that newly registered signatures are picked up) leaves the schema observationally unchanged only if the attribute held a
+    value from that registry in the first place.  The guard therefore has to test the attribute's current value (`isinstance
+    (self._check_fn, Dispatcher)`, `self._check_fn is ...`): a guard on the *name* alone replaces a user's own check function
+    that merely shares its name with a built-in (def in_range(s): ...) by the built-in on first use."""
+    from ..cfg import cfg_of
+    from ..util import enclosing_stmt
+    ix = ctx.ix
+    eng = engine(ix)
+    seen = set()
+    n = 0
+    for q, sm in sorted(eng.summaries.items()):
+        for e in sm.effects:
+            if e.kind != "memo" or e.site in seen:
+                continue
+            f = ix.funcs.get(e.site[0])
+            if f is None or f.cls is None or not f.module.path.startswith("pandera/api/"):
+                continue
+            seen.add(e.site)
+            for st in walk_no_nested(f.node):
+                if isinstance(st, ast.Assign) and st.lineno == e.site[1] and len(st.targets) == 1 and isinstance(st.targets[0], ast.Attribute) \
+                        and txt(st.targets[0].value) == "self":
+                    n += 1
+                    attr = st.targets[0].attr
+                    cfg = cfg_of(f.node)
+                    node = cfg.node_of(st)
+                    guards = [txt(t) for t, _ in (cfg.guards(node.id) if node is not None else [])]
+                    ok = any(f"self.{attr}" in g for g in guards)
+                    ctx.ob("R7", f, f"{f.short}: `{txt(st)[:60]}` re-binds a value that came from the registry", ok,
+                           f"guarded by {guards}" if ok else
+                           f"guards {guards} test the name only, not the current `self.{attr}`: Check(fn) with a user function called like a built-in (def in_range(s): ...) has its "
+                           "function replaced by the built-in at the first validation - the user's check never runs and the schema differs from its snapshot", f.loc(st))
+    ctx.stats["registry_rebindings"] = n
+    if n < 1:
+        raise AnalysisError("no registry re-binding of an instance attribute found (expected Check.__call__)")
+
+
 def run(ctx):
     r5_setstate(ctx)
     r1_who_may_write(ctx)
     r2_frozen(ctx)
     r3_cache(ctx)
     r4_transforms(ctx)
+    r7_registry_rebinding_is_guarded_by_the_value(ctx)
     # R6: hidden state outside the schema object - the context configuration that polars validate overrides per call
     from .c06 import config_context_restore
     config_context_restore(ctx, "R6")
